@@ -175,8 +175,8 @@ class Gen:
                     self.exists[k] = False
         return True
     def finish(self):
-        if self.dead:
-            return
+        # also after a use of an empty slot (self.dead): if the library survives it (repaired check), the files must
+        # still be closed; if it does not, the process is gone before these lines
         for i in sorted(self.tab):
             if self.pending.get(i, 0) > 0:
                 self.features.add('close-with-pending')
@@ -213,11 +213,11 @@ def fixed_histories():
         coq = {'api': 'EApi', 'close': 'EClose', 'abort': 'EAbort', 'post': 'EPost'}[kind]
         l = line or {'api': 'inq_nreqs 7', 'close': 'close 7', 'abort': 'abort 7', 'post': 'iput 7 1 0 var1 t4 c 1 0 pat 1'}[kind]
         return (kind, '%s (%d)' % (coq, i), ['* setid 7 %d' % i, '* ' + l], 1, '%s on id %d' % (l.split()[0], i))
-    h('stale-close-while-other-open', [cr(0), cr(1), op('close', 0), op('close', 0)])
-    h('stale-api-while-other-open', [cr(0), cr(1), op('close', 0), op('api', 0)])
-    h('never-used-id-while-other-open', [cr(0), op('api', 7)])
-    h('never-used-last-id-while-other-open', [cr(0), op('api', MAXF - 1, 'sync 7')])
-    h('stale-put-while-other-open', [cr(0), cr(1), op('abort', 1), op('api', 1, 'put 7 c 0 var1 t4 c 1 0 pat 1')])
+    h('stale-close-while-other-open', [cr(0), cr(1), op('close', 0), op('close', 0), op('close', 1)])
+    h('stale-api-while-other-open', [cr(0), cr(1), op('close', 0), op('api', 0), op('close', 1)])
+    h('never-used-id-while-other-open', [cr(0), op('api', 7), op('close', 0)])
+    h('never-used-last-id-while-other-open', [cr(0), op('api', MAXF - 1, 'sync 7'), op('abort', 0)])
+    h('stale-put-while-other-open', [cr(0), cr(1), op('abort', 1), op('api', 1, 'put 7 c 0 var1 t4 c 1 0 pat 1'), op('close', 0)])
     h('stale-after-all-closed', [cr(0), cr(1), op('close', 0), op('close', 1), op('api', 0), op('close', 1), op('abort', 0)])
     h('boundary-ids-while-open', [cr(0), op('api', -1), op('api', MAXF), op('api', 2 ** 31 - 1), op('api', -2 ** 31), op('close', MAXF),
                                   op('abort', -7), op('close', 0)])
